@@ -26,16 +26,21 @@ CLAIMED = {
 }
 
 CLAIMED["C16"] = dict(
-    technique="symbolic execution of the real BinaryImage code (symx) + z3 (unbounded Int for validate/len, QF_BV for export)",
+    technique="symbolic execution of the real BinaryImage code (symx) + z3 (unbounded Int for validate/len, QF_BV for export "
+              "and for save/load of BIN, HEX and S19 files: what SPSDK hands to bincopy and how it rebuilds an image from "
+              "bincopy's segments runs symbolically over a sparse-memory contract model of bincopy; the concrete twin run "
+              "uses the real bincopy and real files)",
     note="Out of the claim: zero-length sub-images in the overlap clause, explicit size below own binary length, "
-         "BIN/HEX/S19 text formats (bincopy), aligned_start/aligned_length (float).",
+         "bincopy's own text rendering / parsing (contract stub), ELF input, BIN files whose content is valid record text, "
+         "aligned_start/aligned_length (float).",
     ref="DESIGN.md section 3 C16")
 CLAIMED["C11"] = dict(
     technique="symbolic execution of the real Register/RegsBitField/Registers code (symx) + z3 QF_BV, differential "
               "against a bit-array model; verified loop-free summary of get_bytes_cnt_of_int",
     note="Out of the claim: bit-fields on byte-reversed registers, SHIFT_RIGHT fields with non-zero reset, "
-         "alt-widths with reversed sub-register order (no database layout), string operands other than enum names / "
-         "rendered hex (hex rendering+parsing stubbed as inverse pair).",
+         "alt-widths with reversed sub-register order (no database layout), string operands other than enum names, RAW: "
+         "texts and rendered numbers (rendering and int(x,16) are an inverse pair; value_to_int of a bare hexadecimal "
+         "rendering follows a summary proved against the real grammar in the same run).",
     ref="DESIGN.md section 3 C11")
 
 CLAIMED["C09"] = dict(
@@ -62,7 +67,9 @@ CLAIMED["C04"] = dict(
 CLAIMED["C05"] = dict(
     technique="symbolic execution of the real SB3.1 builder incl. the real CertBlockV21 (symx) over UF/ideal-cipher crypto "
               "stubs and stub ECC keys + z3 QF_BV; oracle = independent ROM-loader model over the exported symbolic bytes",
-    note="Out of the claim: real AES-CBC/CMAC/SHA/ECDSA (stubbed), curve membership of keys, config-file plumbing, DevHSM.",
+    note="Out of the claim: real AES-CBC/CMAC/SHA/ECDSA (stubbed), curve membership of keys, reading of configuration and key "
+         "files (the configuration path is decided on a dictionary with the part key as hexadecimal text; certificate block "
+         "and signer are prepared objects), DevHSM; one recorded finding (64-digit part key with a zero upper half).",
     ref="DESIGN.md section 3 C05")
 
 CLAIMED["C03"] = dict(
@@ -70,14 +77,15 @@ CLAIMED["C03"] = dict(
               "(symx) over stub keys with symbolic numbers and a UF hash + z3 QF_BV: every tool path must hash the "
               "reference byte string",
     note="Out of the claim: keys supplied as PEM/DER/certificate files (ASN.1 inside cryptography), curve membership, "
-         "AHAB/HAB SRK tables; assumes SHA-256 does not collide on the root keys where the signer is looked up by hash.",
+         "AHAB/HAB SRK table hashes through `Rot` (only the class selected per family and revision is decided for them); assumes SHA-256 does not collide on the root keys where the signer is looked up by hash.",
     ref="DESIGN.md section 3 C03")
 
 CLAIMED["C15"] = dict(
     technique="symbolic execution of the real debug-credential / RoT-meta / DAR / DAC code (symx) over stub keys and UF "
               "hash/signature + z3 QF_BV; field placement checked against independent offsets, signed bytes by argument capture",
-    note="Out of the claim: EdgeLock-enclave credentials, real signatures, YAML/key-file plumbing; assumes a key hash is "
-         "never all-zero (RotMetaRSA slot detection).",
+    note="Out of the claim: EdgeLock-enclave credentials, real signatures, reading of YAML / key files (key files are a "
+         "name -> key table; histories of two credentials with the table replaced in between are decided); assumes a key "
+         "hash is never all-zero (RotMetaRSA slot detection).",
     ref="DESIGN.md section 3 C15")
 
 CLAIMED["C01"] = dict(
@@ -100,7 +108,8 @@ CLAIMED["C17"] = dict(
               "the drawing phase (import / construction 1 / construction 2) + z3 QF_BV: non-determination by earlier draws "
               "(satisfiability query), equality to an own-phase draw up to documented masks (validity query)",
     note="Out of the claim: quality of secrets.token_bytes; histories longer than two constructions; 'across interpreter "
-         "restarts' is decided as independence from import-phase draws.",
+         "restarts' is decided as independence from import-phase draws; forked workers are decided with the process state "
+         "reduced to the module-level objects of spsdk.crypto.rng (real os.fork in the concrete twin).",
     ref="DESIGN.md section 3 C17")
 
 CLAIMED["C13"] = dict(
@@ -128,7 +137,7 @@ CLAIMED["C10"] = dict(
               "layer - McuBoot / SDP operations over an arbitrary symbolic sequence of K frame-level events; z3 QF_BV "
               "decides wire encodings, exactness/completeness of returned data and that faults surface as documented "
               "exceptions",
-    note="Out of the claim: drivers and timing, transfers above the bounds, multi-operation histories, devices that break "
+    note="Out of the claim: drivers and timing, transfers above the bounds, histories of more than two operations, devices that break "
          "the protocol (not the link); one recorded finding (short read reported with SUCCESS when cmd_exception is off).",
     ref="DESIGN.md section 3 C10")
 
@@ -138,7 +147,8 @@ CLAIMED["C08"] = dict(
               "strict DER model; sign / verify calls are decided as argument-plumbing obligations on the recorded library "
               "calls",
     note="Out of the claim: that the library's RSA/ECDSA signatures verify and forgeries do not, PEM/DER/PKCS8 "
-         "serialisation and passwords (C/Rust code behind the cryptography API - not encodable); one recorded finding "
+         "serialisation, passwords and the PEM-or-DER sniffing of file contents (UTF-8 decoding of symbolic bytes; C/Rust "
+         "code behind the cryptography API - not encodable; seeded change C08_4 lives there and is not detected); one recorded finding "
          "(length-based classification of ECDSA DER signatures).",
     ref="DESIGN.md section 3 C08")
 
